@@ -301,3 +301,80 @@ pub fn v4(a: u8, b: u8, port: u16) -> SocketAddr {
 pub fn v6(n: u16, port: u16) -> SocketAddr {
     SocketAddr::from((std::net::Ipv6Addr::new(0xfd00, 0, 0, 0, 0, 0, 0, n), port))
 }
+
+/// Loss-free latency policy: the delay of the n-th datagram on a directed pair is taken from a
+/// generated table (cycled), so it is a pure function of the case and the datagram's identity.
+pub struct LatencyTable {
+    pub table: Vec<u16>,
+}
+
+fn addr_hash(a: &SocketAddr) -> u64 {
+    let mut x: u64 = a.port() as u64;
+    match a.ip() {
+        std::net::IpAddr::V4(i) => x = x.wrapping_mul(0x9E37_79B9).wrapping_add(u32::from(i) as u64),
+        std::net::IpAddr::V6(i) => {
+            for o in i.octets() {
+                x = x.wrapping_mul(131).wrapping_add(o as u64);
+            }
+        }
+    }
+    crate::engine::splitmix(x)
+}
+
+impl LatencyTable {
+    pub fn delay(&self, d: &Dgram) -> Duration {
+        if self.table.is_empty() {
+            return Duration::ZERO;
+        }
+        let h = addr_hash(&d.from).rotate_left(13) ^ addr_hash(&d.to);
+        let i = (h as usize).wrapping_add(d.seq as usize) % self.table.len();
+        Duration::from_millis(self.table[i] as u64)
+    }
+}
+
+impl Policy for LatencyTable {
+    fn fate(&mut self, d: &Dgram) -> Fate {
+        Fate::Deliver(vec![self.delay(d)])
+    }
+}
+
+/// Loss-free latency policy with a round-trip budget: each datagram is delayed by its table
+/// entry (< 1 s), but a reply (same tid, reversed addresses) never arrives later than
+/// `budget_ms` after its query was sent.
+pub struct RttBudget {
+    pub lat: LatencyTable,
+    pub budget_ms: u64,
+    /// (asker, asked, tid) -> time the query was sent (ms)
+    pub queries: HashMap<(SocketAddr, SocketAddr, Vec<u8>), u64>,
+}
+
+impl RttBudget {
+    pub fn new(table: Vec<u16>, budget_ms: u64) -> RttBudget {
+        RttBudget { lat: LatencyTable { table }, budget_ms, queries: HashMap::new() }
+    }
+}
+
+impl Policy for RttBudget {
+    fn fate(&mut self, d: &Dgram) -> Fate {
+        let mut delay = self.lat.delay(d).as_millis() as u64;
+        if let Ok(m) = crate::bcodec::KMsg::decode(d.bytes) {
+            let now = d.now.as_millis() as u64;
+            match m.body {
+                crate::bcodec::KBody::Query(_) => {
+                    self.queries.insert((d.from, d.to, m.tid.clone()), now);
+                }
+                _ => {
+                    if let Some(sent) = self.queries.get(&(d.to, d.from, m.tid.clone())) {
+                        let deadline = sent + self.budget_ms;
+                        let latest = deadline.saturating_sub(now);
+                        delay = delay.min(latest);
+                    }
+                }
+            }
+        }
+        if self.queries.len() > 200_000 {
+            self.queries.clear();
+        }
+        Fate::Deliver(vec![Duration::from_millis(delay)])
+    }
+}
